@@ -55,7 +55,7 @@ def one(job):
             continue
         if any(f.verdict == REFUTED and f.key not in bad[p] for f in ctx.findings):
             hits.append(p)
-        elif any(f.verdict == UNKNOWN and f.key not in bad[p] for f in ctx.findings):
+        elif any(f.verdict == UNKNOWN and f.key not in bad[p] for f in ctx.findings) or any(g < fl for _n, g, fl in ctx.floors):
             unk.append(p)
     return name, hits, unk
 
